@@ -93,7 +93,11 @@ class LiteralToken(RegexpBaseToken):
         super().__init__(*args, *kwargs)
 
         if self.value[2]:
-            real_value = int(self.value[2])
+            try:
+                real_value = int(self.value[2])
+            except ValueError:
+                # int() refuses texts of more than sys.get_int_max_str_digits() digits
+                raise E2PyclParserException('Number literal is too long')
             if self.value[5] or self.value[7]:
                 # the literal denotes the double nearest to its decimal text; rebuilding it
                 # arithmetically (int + fraction) * 10 ** exponent accumulates rounding errors
